@@ -6,8 +6,18 @@
     two-step (the real [notify_queue] is an unsynchronised HashSet). Statements are about every
     schedule of thread steps, clock ticks, scans and signal deliveries, any number of threads and
     coroutines, any bodies. *)
-From OCV Require Import Cases.C22 Misc.MonitorInv Misc.MonitorProofs.
+From OCV Require Import Cases.C22 Misc.MonitorInv Misc.MonitorProofs Misc.MonitorTrace.
 Open Scope Z_scope.
+
+(** the trace oracle (the one evaluated on the traces of the real scheduler) holds on every run of
+    the model with synchronised set operations — any schedule of steps, ticks, scans and signal
+    deliveries, any number of threads, any bodies whose system-call sections are well formed: the
+    listener saw consistent states, a node of the thread is in the set iff the new state is
+    Running, nothing is suspended in a system-call state, every result is the body's own *)
+Theorem C22_holds : forall clock nthr progs sched,
+  wfp nthr progs = true -> wf_bodies progs = true ->
+  ok_events (bodies progs) (strip (m_log (mrun (minit true clock nthr progs) sched))) = true.
+Proof. exact trace_ok. Qed.
 
 (** with synchronised set operations a thread has a node in the monitor's set exactly while its
     current coroutine is Running *)
@@ -95,6 +105,7 @@ Example C22_nonvacuous :
   /\ ok_events nv_progs [MChange 0 CReady CRunning false true; MChange 0 CRunning (CDone 11) false false] = false.
 Proof. vm_compute. repeat split. Qed.
 
+Print Assumptions C22_holds.
 Print Assumptions C22_node_iff_running.
 Print Assumptions C22_overdue_signalled.
 Print Assumptions C22_syscall_never_suspended.
